@@ -25,6 +25,26 @@ KEEP = ("ev", "k", "k2", "v", "id", "first", "r", "rk", "rid", "rv", "seq", "cnt
 ALL_SLOTS = [2, 3, 4, 5, 6, 8, 24]
 
 
+class Background:
+    """Run fn(*a) in a thread; result() re-raises its exception (InfraError stays InfraError)."""
+    def __init__(self, fn, *a):
+        self.val, self.exc = None, None
+
+        def go():
+            try:
+                self.val = fn(*a)
+            except BaseException as e:          # noqa
+                self.exc = e
+        self.t = threading.Thread(target=go, daemon=True)
+        self.t.start()
+
+    def result(self):
+        self.t.join()
+        if self.exc is not None:
+            raise self.exc
+        return self.val
+
+
 # ----------------------------------------------------------------------------------------------- design level
 def parse_coverage(out):
     cov = {}
@@ -38,7 +58,7 @@ EXPECTED_ACTIONS = 24
 
 def design_check(c):
     cfg = c.pick("OrderedStore_mc.cfg", "OrderedStore_mc_thorough.cfg")
-    r = c.tlc_must_pass(SPEC, cfg, workers=c.pick(4, 6), timeout=c.pick(600, 1500), coverage=True, heap="4g")
+    r = c.tlc_must_pass(SPEC, cfg, workers=4, timeout=c.pick(600, 1500), coverage=True, heap="4g", tag="design")
     cov = parse_coverage(r.out)
     cov.pop("Init", None)
     untaken = sorted(a for a, (d, t) in cov.items() if t == 0)
